@@ -60,6 +60,19 @@ pub fn concretise(
     salt: u64,
 ) -> Concrete {
     let fam = FAMILIES[pick(seed, salt, FAMILIES.len())];
+    concretise_fam(want, quant, m, final_newline, seed, salt, fam)
+}
+
+/// like [`concretise`], with the line texts drawn from the given family
+pub fn concretise_fam(
+    want: &[Vec<usize>],
+    quant: &[String],
+    m: usize,
+    final_newline: bool,
+    seed: u64,
+    salt: u64,
+    fam: &[&str],
+) -> Concrete {
     let texts: Vec<&str> = (0..m).map(|l| fam[l % fam.len()]).collect();
     // for m > family size make texts distinct by suffixing
     let texts: Vec<String> = texts
